@@ -289,20 +289,24 @@ def run(ctx):
     fixers = sorted(r["id"] for r in rules if r["fix"] and r["default"])
     allids = sorted(r["id"] for r in rules)
     pr_lines = ["a", "", "```", "x", "<!-- pyml disable-next-line md013-->", "<!--- pyml disable-next-line md009-->", "# h", "- i", "b  ", "    c"]
-    docs = list(gen.POOL) + list(gen.d_trig_small()) + list(gen.d_line(gen.V_ALL, 2, final_newline=(True,)))
-    docs += gen.sample(list(gen.d_line(pr_lines, 5, final_newline=(True,))), 4000 if ctx.tier == "thorough" else 700, 31)
-    docs += gen.sample(list(gen.d_line(gen.V_ALL, 3, final_newline=(True,))), 12000 if ctx.tier == "thorough" else 1500, 33)
-    docs += ["> # x\n", ">     # x\n", "#  þing\n", "a\n\n\n\n<!-- pyml disable-next-line md009-->\nb \n<!-- pyml disable-next-line md010-->\nc\n",
+    # base: the same in both tiers, every configuration; extra: default configuration only; the quick tier takes prefixes of
+    # the thorough tier's fixed samples so that every quick case is a thorough case
+    base = list(gen.POOL) + list(gen.d_trig_small()) + list(gen.d_line(gen.V_ALL, 2, final_newline=(True,)))
+    base += ["> # x\n", ">     # x\n", "#  þing\n", "a\n\n\n\n<!-- pyml disable-next-line md009-->\nb \n<!-- pyml disable-next-line md010-->\nc\n",
              "a\n```\nx\n```\n<!-- pyml disable-next-line md009-->\n<!-- pyml disable-next-line md010-->\nc\n", "a\n\n\n\n<!--- pyml disable-next-line md010-->\nb \nc\n"]
+    base = list(gen.uniq(base))
+    extra = gen.sample(list(gen.d_line(pr_lines, 5, final_newline=(True,))), 4000, 31)[:4000 if ctx.tier == "thorough" else 700]
+    extra += gen.sample(list(gen.d_line(gen.V_ALL, 3, final_newline=(True,))), 12000, 33)[:12000 if ctx.tier == "thorough" else 1500]
     corpus = gen.repo_corpus(core.REPO)
-    docs += corpus if ctx.tier == "thorough" else gen.sample(corpus, 600, ctx.seed)
-    docs = list(gen.uniq(docs))
+    extra += corpus if ctx.tier == "thorough" else gen.sample(corpus, 600, ctx.seed)
+    extra = [d for d in gen.uniq(extra) if d not in set(base)]
+    docs = base + extra
     configs = [("default", [], [])] + [("only:" + r, [r], [x for x in allids if x != r]) for r in fixers]
     if ctx.tier == "quick":
         rnd = random.Random(ctx.seed)
-        space = [(d, configs[0]) for d in docs] + [(d, rnd.choice(configs[1:])) for d in rnd.sample(docs, min(len(docs), 1500))]
+        space = [(d, configs[0]) for d in docs] + [(d, rnd.choice(configs[1:])) for d in rnd.sample(base, min(len(base), 1500))]
     else:
-        space = [(d, configs[0]) for d in docs] + [(d, c) for d in docs[:4000] for c in configs[1:]]
+        space = [(d, configs[0]) for d in docs] + [(d, c) for d in base for c in configs[1:]]
     res = impl.pmap(_fix, [(d, c[1], c[2]) for d, c in space], chunksize=16)
     changed = [(d, c, fx) for (d, c), (e1, fx, err) in zip(space, res) if e1 in (0, 3) and fx is not None and fx != d]
     for (d, c), (e1, fx, err) in zip(space, res):
